@@ -331,6 +331,25 @@ def jac(ast, env, wrt, am=False):
     return val, out
 
 
+def fd_verify(ast, env, name, Jn):
+    """Guard of the oracle itself, used before a derivative violation is reported: the AST differentiator must agree with
+    central differences of the NumPy interpreter, otherwise the harness (not OpenMDAO) is wrong -> AssertionError."""
+    x0 = np.asarray(env[name], dtype=float)
+    h = 1e-6
+    fd = np.zeros_like(Jn)
+    for k in range(x0.size):
+        xp = x0.copy().ravel()
+        xm = x0.copy().ravel()
+        xp[k] += h
+        xm[k] -= h
+        fp = np.asarray(ev(ast, dict(env, **{name: xp.reshape(x0.shape)})), dtype=float).ravel()
+        fm = np.asarray(ev(ast, dict(env, **{name: xm.reshape(x0.shape)})), dtype=float).ravel()
+        fd[:, k] = (fp - fm) / (2 * h)
+    err = np.max(np.abs(fd - Jn) / (1.0 + np.abs(fd)), initial=0.0)
+    if err > 1e-4:
+        raise AssertionError(f"harness: AST differentiator disagrees with finite differences ({err:.2e}) on {render(ast)}")
+
+
 # ------------------------------------------------------------------------------------------------------------------
 # text renderings
 # ------------------------------------------------------------------------------------------------------------------
